@@ -99,6 +99,12 @@ Judge(ev) ==
                           <<Explains(u, ev.u8, LAMBDA v, o : o.s = v), "utf8_decode", IF u.out = "ok" THEN u.v ELSE <<>> >>,
                           <<u.out # "ok" \/ BytesIs(ev.u8enc, ev.b), "utf8_encode(utf8_decode)", <<>> >>,
                           <<BytesIs(ev.gz, ev.b), "decompress(compress)", <<>> >> >>, 1)
+      \* bulk payloads (built inside the interpreter, n bytes, never shipped): each inverse pair gives the
+      \* payload back - reported as [equal to the payload, length of the result]
+      [] ev.ev = "bulk" ->
+           FirstBad(<< <<ev.hex = <<1, ev.n>>, "bulk hex_decode(hex_encode)", <<>> >>,
+                       <<ev.b64 = <<1, ev.n>>, "bulk base64_decode(base64_encode)", <<>> >>,
+                       <<ev.gz = <<1, ev.n>>, "bulk decompress(compress)", <<>> >> >>, 1)
       [] ev.ev = "hexdec" ->
            LET r == HexDec(ev.s)
            IN FirstBad(<< <<Explains(r, ev.r, LAMBDA v, o : o.t = "bytes" /\ o.b = v), "hex_decode",
